@@ -419,6 +419,53 @@ pub fn isolate_process_env(scratch: &Path) {
 }
 
 impl Engine {
+    /// Engine whose provider configuration comes from whatever `prepare` puts into the process
+    /// environment and config files (it receives the scratch root, workspace and stub address);
+    /// `make_cfg` then produces the engine-level configuration the way the daemon binary does.
+    pub fn new_with(root: &Path, script: Vec<Resp>, prepare: impl FnOnce(&Path, &Path, &std::net::SocketAddr), make_cfg: impl FnOnce() -> Option<ripd::verif_api::OpenResponsesConfig>) -> Result<Engine, String> {
+        let _ = std::fs::remove_dir_all(root);
+        let data = root.join("data");
+        let ws = root.join("ws");
+        std::fs::create_dir_all(&data).map_err(|e| e.to_string())?;
+        std::fs::create_dir_all(&ws).map_err(|e| e.to_string())?;
+        isolate_process_env(root);
+        let rt = tokio::runtime::Builder::new_current_thread().enable_all().build().map_err(|e| format!("runtime: {e}"))?;
+        let provider = rt.block_on(start_provider(script))?;
+        prepare(root, &ws, &provider.addr);
+        let or = make_cfg();
+        let (d2, w2) = (data.clone(), ws.clone());
+        let app = rt.block_on(async move { ripd::verif_api::build_router(d2, w2, or, false) });
+        Ok(Engine { rt, app, provider, data, ws })
+    }
+
+    /// GET an SSE endpoint and return what arrives until the stream goes quiet for `idle_ms`.
+    pub fn read_stream(&self, uri: &str, idle_ms: u64) -> Result<(u16, Vec<u8>), String> {
+        let app = self.app.clone();
+        let req = Request::builder().method("GET").uri(uri).body(Body::empty()).map_err(|e| e.to_string())?;
+        self.rt.block_on(async move {
+            let resp = app.oneshot(req).await.map_err(|e| e.to_string())?;
+            let status = resp.status().as_u16();
+            let mut body = resp.into_body();
+            let mut out = Vec::new();
+            loop {
+                match tokio::time::timeout(Duration::from_millis(idle_ms), body.frame()).await {
+                    Err(_) => break,
+                    Ok(None) => break,
+                    Ok(Some(Err(e))) => return Err(e.to_string()),
+                    Ok(Some(Ok(f))) => {
+                        if let Some(d) = f.data_ref() {
+                            out.extend_from_slice(d);
+                        }
+                    }
+                }
+                if out.len() > 32 << 20 {
+                    break;
+                }
+            }
+            Ok((status, out))
+        })
+    }
+
     pub fn new(root: &Path, cfg: &ProviderCfg, script: Vec<Resp>, with_provider: bool) -> Result<Engine, String> {
         let _ = std::fs::remove_dir_all(root);
         let data = root.join("data");
